@@ -19,6 +19,7 @@ type Val struct {
 	PT   types.Type // pointer values with Root set: Go type of the root cell
 	Lit  *string    // known string literal
 	Fn   *Closure   // function values known statically
+	Guard string    // lock key guarding the object this value designates (maps read from guarded fields)
 }
 
 type Closure struct {
@@ -61,6 +62,9 @@ type State struct {
 	iterK    string // current canonical-loop index, for automatic trace tagging
 	retVals  []Val
 	panicked bool
+	defers   []*ast.DeferStmt
+	locks    map[string]string // ghost: mutex key -> 0 (free), 1 (read-locked), 2 (write-locked)
+	panicVal string            // value of the panic in flight ("" = none)
 }
 
 func (s *State) clone() *State {
@@ -90,6 +94,11 @@ func (s *State) clone() *State {
 		n.ghost[k] = v
 	}
 	n.pc = append([]string(nil), s.pc...)
+	n.defers = append([]*ast.DeferStmt(nil), s.defers...)
+	n.locks = make(map[string]string, len(s.locks))
+	for k, v := range s.locks {
+		n.locks[k] = v
+	}
 	return &n
 }
 
@@ -147,6 +156,7 @@ type Fx struct {
 	errGlobals []string
 	oblSeen  map[string]int
 	inQuant  int
+	namedResults bool
 	siteOrd  map[ast.Node]int
 	opaqueRet map[string]Val
 	defs     map[string]string // shared sub-terms: constant -> defining term
@@ -156,8 +166,8 @@ func (fx *Fx) note(drop string) { fx.dropped[drop] = true }
 
 // share names a large term by a fresh constant (a definitional axiom), so that terms do not grow exponentially.
 func (fx *Fx) share(term, sort string) string {
-	if len(term) <= 200 {
-		return term
+	if len(term) <= 200 || fx.inQuant > 0 {
+		return term // (terms under a binder may mention the bound variable: never name them globally)
 	}
 	c := fx.d.freshConst("t", sort)
 	fx.d.axioms = append(fx.d.axioms, "(assert (= "+c+" "+term+"))")
@@ -250,6 +260,9 @@ func (fx *Fx) load(st *State, l *Loc) Val {
 		v, ok := st.env[l.obj]
 		if !ok {
 			panic(unsupported("read of undefined variable " + l.obj.Name()))
+		}
+		if v.Root == "@local" {
+			return fx.load(st, &Loc{kind: locCell, key: "local_" + typeKey(l.obj.Type()), ref: v.X, T: l.obj.Type()})
 		}
 		return v
 	case locCell:
@@ -418,6 +431,10 @@ func (fx *Fx) seqLen(b Val) string {
 func (fx *Fx) store(st *State, l *Loc, v Val) {
 	switch l.kind {
 	case locVar:
+		if cur, ok := st.env[l.obj]; ok && cur.Root == "@local" {
+			fx.store(st, &Loc{kind: locCell, key: "local_" + typeKey(l.obj.Type()), ref: cur.X, T: l.obj.Type()}, v)
+			return
+		}
 		if v.T == nil {
 			v.T = l.T
 		}
